@@ -717,7 +717,7 @@ package lorawan
 //@ ginv registry_ok: forall up bool, c CID :: (c >= 128 && haskey(macPayloadRegistry[up], c)) ==> macPayloadRegistry[up][c].size >= 1 && macPayloadRegistry[up][c].size <= 255 && macPayloadRegistry[up][c].payload == funcid("RegisterProprietaryMACCommand$1")
 
 //@ func GetMACPayloadAndSize
-//@   props C06 C07 C09
+//@   props C06 C07 C09 C10
 //@   uses registry_ok
 //@   ensures ok: err == nil ==> result0 != nil && result1 >= 1 && result1 <= 255 && result1 == macPayloadRegistry[uplink][c].size && haskey(macPayloadRegistry[uplink], c)
 //@   ensures unknown: err != nil ==> !haskey(macPayloadRegistry[uplink], c)
